@@ -425,7 +425,8 @@ def _wact(a):
 
 
 def to_wire(case):
-    return [[[p, _spec(case, s)] for p, s in case['nodes']], [_wact(a) for a in case['actions']]]
+    return [1 if case['mode'] == 'include' else 0, [[p, _spec(case, s)] for p, s in case['nodes']],
+            [_wact(a) for a in case['actions']]]
 
 
 def from_wire(case, raw):
